@@ -12,10 +12,8 @@
 //            sample (or KEEP_LAST has evicted it) the next sample of the instance is accepted however
 //            close it is — with take() in the data-available callback the filter never filters.
 use super::support_reader::*;
-use crate::infrastructure::qos_policy::{DestinationOrderQosPolicyKind, Length};
-use crate::infrastructure::sample_info::{ANY_INSTANCE_STATE, ANY_SAMPLE_STATE, ANY_VIEW_STATE};
+use crate::infrastructure::qos_policy::DestinationOrderQosPolicyKind;
 use crate::infrastructure::time::{Duration, DurationKind, Time};
-use crate::transport::types::ChangeKind;
 // alias: Kani's stub path resolver picks the derive macro `PartialEq` instead of the trait otherwise
 use core::cmp::PartialEq as HandlePartialEq;
 
@@ -151,35 +149,24 @@ fn rest_covers(x: &Run) {
     kani::cover!(x.res == StepResult::Added && x.post.n == x.pre_n + 1, "a sample at least minimum_separation away was stored");
 }
 
-/// KF-C25-2 scenario: the cache holds one ALIVE sample of instance 0 with a source timestamp; the
-/// application takes it (real `take`); then a change of the same instance arrives whose source timestamp
-/// is closer than minimum_separation to the taken one.
+/// KF-C25-2 scenario.  Ghost history: a sample of instance 0 with source timestamp `t0` was accepted and
+/// presented earlier and has since left the cache (the application took it: `take` removes what it
+/// returns, which is C20's subject; running the real `take` in front of the real `add_reader_change` in
+/// one harness exhausts the SAT back end, measured: out of memory at 12 GB during SSA conversion).  The
+/// state that history reaches is an empty cache with the instance registered; from it a change of the
+/// same instance arrives whose source timestamp is closer than minimum_separation to `t0`.
 fn c25_taken_then_close() {
     let sep = any_sep(TimeDomain::Small);
-    let mut cfg = any_cfg(Hist::KeepAll, BY_RECEPTION, DurationKind::Finite(sep));
-    cfg.ms = Length::Unlimited;
-    cfg.mi = Length::Unlimited;
-    cfg.mspi = Length::Unlimited;
-    let mut pre = any_pre_state_st(&plain(1), TimeDomain::Small);
-    pre.s[0].inst = 0;
-    pre.s[0].kind = ChangeKind::Alive;
-    let t0 = any_small_time();
-    pre.s[0].ts = Some(t0);
+    let cfg = any_cfg(Hist::KeepAll, BY_RECEPTION, DurationKind::Finite(sep));
+    let pre = any_pre_state_st(&plain(0), TimeDomain::Small);
+    let t0 = any_small_time(); // ghost: source timestamp of the sample that was presented and taken
     let mut c = any_incoming();
     c.inst = 0;
-    c.kind = ChangeKind::Alive;
     let t1 = any_small_time();
     c.ts = Some(t1);
     kani::assume(!apart(t0, t1, sep));
 
     let mut r = build_reader(cfg.qos(), &pre);
-    let taken = r.take(1, ANY_SAMPLE_STATE, ANY_VIEW_STATE, ANY_INSTANCE_STATE, &None);
-    let presented_first = match &taken {
-        Ok(l) => l.len() == 1 && l[0].1.source_timestamp == Some(t0),
-        Err(_) => false,
-    };
-    core::mem::forget(taken);
-    assert!(presented_first && r.sample_list.is_empty(), "take() presents and removes the stored sample");
     let res = step(&mut r, &c);
     let stored = r.sample_list.len();
     core::mem::forget(r);
@@ -212,7 +199,7 @@ fn c25_filter_keep_all_n1__rest() {
     rest_covers(&x);
 }
 
-// @check props=C25 tier=quick
+// @check props=C25 tier=thorough
 // @desc TIME_BASED_FILTER with minimum_separation > 0, KEEP_ALL, BY_RECEPTION_TIMESTAMP, cache with exactly 2 stored sample(s): after one real add_reader_change any two stored samples of an instance are still at least minimum_separation apart (source timestamps; equal and out-of-order timestamps included); a change at least minimum_separation away from every stored sample of its instance is not filtered (never NotAdded); a filtered change leaves the cache untouched. Outside the triggers of KF-C25-1 and KF-C25-2.
 // @bounds exactly 2 stored sample(s), KEEP_ALL, BY_RECEPTION_TIMESTAMP, source timestamps None or sec 0..4 x nanosec {0, 5*10^8}, minimum_separation in {0.5 s, 1 s, ..., 2.5 s}, 2 instance handles (both registered), 2 writers, each resource limit in {1,2,3,unlimited} (QoS consistent), all 5 change kinds, instance_ownership empty; unwind 6
 // @assume pre-state: any two stored samples of an instance that carry a source timestamp are >= minimum_separation apart; R1-R3, KEEP_LAST and resource-limit invariants (all re-asserted after the step)
@@ -251,12 +238,11 @@ fn c25_filter_ignores_later_sample__known() {
 }
 
 // @check props=C25 tier=quick known=KF-C25-2
-// @desc KF-C25-2: one stored ALIVE sample with source timestamp t0 is taken by the application (real take()); a change of the same instance with a source timestamp closer than minimum_separation to t0 then arrives: the property demands that the reader never presents two such samples, the implementation (which compares only with samples still in the cache) accepts and stores it.
-// @bounds 1 stored sample (ALIVE, instance 0, timestamp sec 0..4 x nanosec {0, 5*10^8}), real take(max_samples 1, any states) followed by one real add_reader_change; KEEP_ALL, resource limits unlimited, BY_RECEPTION_TIMESTAMP, minimum_separation in {0.5 s .. 2.5 s}; unwind 6
-// @assume the KF-C25-2 scenario (a presented sample has left the cache before a closer one arrives)
+// @desc KF-C25-2: ghost history - a sample of the instance with source timestamp t0 was accepted, presented and taken, so the cache is empty; one real add_reader_change with a change of the same instance whose source timestamp is closer than minimum_separation to t0: the property demands that the reader never presents two such samples, the implementation (which compares only with samples still in the cache) accepts and stores it.
+// @bounds empty cache (the state after take), instance registered, t0 and the incoming timestamp sec 0..4 x nanosec {0, 5*10^8}, minimum_separation in {0.5 s .. 2.5 s}, KEEP_ALL, each resource limit in {1,2,3,unlimited}, BY_RECEPTION_TIMESTAMP, all 5 change kinds; unwind 6
+// @assume the KF-C25-2 scenario: a presented sample (ghost timestamp t0) has left the cache before a closer one arrives; the real take() is not executed in this harness (take + add_reader_change together exceed 12 GB)
 // @assume <InstanceHandle as PartialEq>::eq replaced by the loop-free handle_eq_stub (equivalence: c18_handle_eq_stub_is_equivalent)
 // @enc dcps::dcps_domain_participant::data_reader_entity::DataReaderEntity::add_reader_change
-// @enc dcps::dcps_domain_participant::data_reader_entity::DataReaderEntity::take
 #[kani::proof]
 #[kani::unwind(6)]
 #[kani::solver(minisat)]
